@@ -4,6 +4,7 @@
 //   f <name> <recipe> <part>   clean a file sequentially;  fp ...: cleaned concurrently with the other fp files of the session
 //   E                       finalize the session, then scan the store and run the per-session oracles
 //   X                       abandon the session without finalizing it (after its xorb uploads have settled); its files are forgotten
+//   S <salt|-> slow         every xorb upload of the session is held back 40 ms
 //   S <salt|-> lost|exists  the store loses the response to this session's shard upload / answers "exists" for a shard it holds
 //   D                       download every file cleaned so far (whole + ranges) and compare
 // recipe: id:len,id:len,...  (block id -> splitmix64 byte stream, truncated to len);  part: all | n (call size) | a+b+c (cycled)
@@ -40,12 +41,17 @@ pub struct Counting {
     // comes back); 2 a shard the store already holds is answered with "exists" (Ok(false), as the remote service does)
     pub shard_mode: u8,
     pub shard_dir: PathBuf,
+    // every put is held back this long before it is forwarded (uploads stay in flight while other files complete)
+    pub put_delay_ms: u64,
 }
 
 #[async_trait]
 impl UploadClient for Counting {
     async fn put(&self, prefix: &str, hash: &MerkleHash, data: Vec<u8>, cb: Vec<(MerkleHash, u32)>) -> Result<usize, CasClientError> {
         let handed = data.len();
+        if self.put_delay_ms > 0 {
+            tokio::time::sleep(std::time::Duration::from_millis(self.put_delay_ms)).await;
+        }
         let r = self.inner.put(prefix, hash, data, cb).await;
         if let Ok(n) = &r {
             self.puts.lock().unwrap().push((*hash, handed, *n));
@@ -263,6 +269,7 @@ async fn run_async(ops: Vec<Vec<String>>, root: PathBuf, tp: Arc<ThreadPool>) ->
             "S" => {
                 sess_salt = if op.len() > 1 && op[1] != "-" { crate::util::unhex(&op[1]).try_into().unwrap() } else { [0u8; 32] };
                 let shard_mode: u8 = match op.get(2).map(|x| x.as_str()) { Some("lost") => 1, Some("exists") => 2, _ => 0 };
+                let put_delay_ms: u64 = if op.get(2).map(|x| x.as_str()) == Some("slow") { 40 } else { 0 };
                 xorbs_before = list_dir(&xorb_dir);
                 shards_before = list_dir(&shard_dir);
                 sess_files.clear();
@@ -270,11 +277,11 @@ async fn run_async(ops: Vec<Vec<String>>, root: PathBuf, tp: Arc<ThreadPool>) ->
                 // talk to the same kind of client through the counting wrapper
                 let cfg = config(&base, sess_salt);
                 counting = None;
-                let opened = if nsess % 3 == 2 && shard_mode == 0 {
+                let opened = if nsess % 3 == 2 && shard_mode == 0 && put_delay_ms == 0 {
                     FileUploadSession::new(cfg, tp.clone(), None).await
                 } else {
                     let Endpoint::FileSystem(ref path) = cfg.data_config.endpoint else { unreachable!() };
-                    let c = Arc::new(Counting { inner: Arc::new(LocalClient::new(path, None).unwrap()), puts: Default::default(), shard_mode, shard_dir: shard_dir.clone() });
+                    let c = Arc::new(Counting { inner: Arc::new(LocalClient::new(path, None).unwrap()), puts: Default::default(), shard_mode, shard_dir: shard_dir.clone(), put_delay_ms });
                     counting = Some(c.clone());
                     FileUploadSession::new_with_client(cfg.clone(), tp.clone(), c).await
                 };
@@ -336,7 +343,11 @@ async fn run_async(ops: Vec<Vec<String>>, root: PathBuf, tp: Arc<ThreadPool>) ->
                             files.push(fr);
                         },
                         Ok(Err(e)) => out.push(("obs", format!("clean-error {}", e))),
-                        Err(e) => out.push(("obs", format!("clean-task-panicked {:?}", e))),
+                        Err(e) => {
+                            let msg: String = format!("{:?}", e).chars().take(160).collect();
+                            out.push(("obs", "clean-task-panicked".into()));
+                            why.push(format!("a file-cleaning task of the session panicked: {}", msg.replace('\n', " ")));
+                        },
                     }
                 }
                 let Some(s) = session.take() else { continue };
